@@ -84,10 +84,10 @@ fn scenario(n: usize) {
 }
 
 //@ ob: C16.O1a
-//@ rss: 12.5
-//@ time: 371
 //@ tier: quick
 //@ cap: 800
+//@ rss: 2.7
+//@ time: 90
 //@ standins: tracing lru vcoll flume
 //@ desc: get_mutable_most_recent returns None iff the lookup delivered nothing (n = 0) and the single item for n = 1
 //@ bounds: n in {0, 1} delivered items with symbolic (seq: full i64, 1-byte value); unwind 9
@@ -107,6 +107,8 @@ fn c16_o1a_most_recent_n01() {
 //@ ob: C16.O1b
 //@ tier: quick
 //@ cap: 800
+//@ rss: 2.4
+//@ time: 107
 //@ standins: tracing lru vcoll flume
 //@ desc: two delivered items in either order (symbolic seqs and values): the result has the maximum seq, ties broken by the greatest value
 //@ bounds: n = 2; seq full i64, values 1 byte; all orders are covered by the items being symbolic; unwind 9
@@ -121,8 +123,10 @@ fn c16_o1b_most_recent_n2() {
 }
 
 //@ ob: C16.O1c
-//@ tier: thorough
-//@ cap: 3000
+//@ tier: quick
+//@ cap: 800
+//@ rss: 3.0
+//@ time: 127
 //@ standins: tracing lru vcoll flume
 //@ desc: three delivered items: maximum seq, ties by greatest value
 //@ bounds: n = 3; unwind 9
